@@ -55,6 +55,8 @@ type ProbeObs struct {
 type BgObs struct {
 	H   int `json:"h"`
 	Pid int `json:"pid"`
+	// Start: the start time of the process as /proc/<pid>/stat has it (tells a reused pid apart)
+	Start string `json:"start,omitempty"`
 }
 
 type ScriptObs struct {
@@ -72,8 +74,11 @@ type ScriptObs struct {
 	Probes     []ProbeObs `json:"probes"`
 	Log        string     `json:"log"`
 	Panic      string     `json:"panic,omitempty"`
-	StartNs    int64      `json:"start_ns"`
-	EndNs      int64      `json:"end_ns"`
+	// AliveAtEnd: the background commands of the script (handle:pid) that were still running, not even
+	// waited for, at the moment its subtest function returned
+	AliveAtEnd []string `json:"alive_at_end,omitempty"`
+	StartNs    int64    `json:"start_ns"`
+	EndNs      int64    `json:"end_ns"`
 }
 
 type ChildResult struct {
@@ -103,7 +108,25 @@ type rootT struct {
 	fatal   string
 	gs      *gateSched
 	index   map[string]int
-	seq     bool // a sequential T (as cmd/testscript's): Run runs the subtest to its end, Parallel does nothing
+	seq     bool              // a sequential T (as cmd/testscript's): Run runs the subtest to its end, Parallel does nothing
+	atEnd   func(name string) // called when the function of a subtest has returned (or has been left)
+}
+
+// procStart: field 22 (starttime) of /proc/<pid>/stat and the state of the process; "" when it is gone.
+func procStart(pid int) (start string, state byte) {
+	st, err := os.ReadFile(fmt.Sprintf("/proc/%d/stat", pid))
+	if err != nil {
+		return "", 0
+	}
+	i := strings.LastIndexByte(string(st), ')')
+	if i < 0 || i+2 >= len(st) {
+		return "", 0
+	}
+	f := strings.Fields(string(st[i+2:]))
+	if len(f) < 20 {
+		return "", 0
+	}
+	return f[19], f[0][0]
 }
 
 type gateEv struct {
@@ -220,6 +243,9 @@ func (r *rootT) Run(name string, f func(testscript.T)) {
 				s.mu.Lock()
 				s.panicv = fmt.Sprint(e)
 				s.mu.Unlock()
+			}
+			if r.atEnd != nil {
+				r.atEnd(name)
 			}
 			s.mu.Lock()
 			s.end = time.Now()
@@ -389,6 +415,25 @@ func modesString(dir string) string {
 	return strings.Join(ents, ",")
 }
 
+// endDeferred: the way a deferred function of the given kind ends (deferKind).
+func endDeferred(kind string, id int, t testscript.T, ts *testscript.TestScript) {
+	switch kind {
+	case "panic":
+		panic(fmt.Sprintf("deferred function %d panics", id))
+	case "failnow":
+		t.FailNow()
+	case "fatal":
+		t.Fatal(fmt.Sprintf("deferred function %d fails the test", id))
+	case "skip":
+		t.Skip(fmt.Sprintf("deferred function %d skips the test", id))
+	case "tsfatalf":
+		if ts != nil {
+			ts.Fatalf("deferred function %d calls ts.Fatalf", id)
+		}
+		panic(fmt.Sprintf("deferred function %d panics", id))
+	}
+}
+
 func runChild(jobPath string) {
 	var job Job
 	b, err := os.ReadFile(jobPath)
@@ -432,6 +477,8 @@ func runBatchChild(job *Job, deadline time.Time) *ChildResult {
 	res := &ChildResult{Uid: os.Getuid()}
 	col := &collector{scripts: map[string]*ScriptObs{}, bgSeen: map[string]int{}}
 	byName := map[string]*Script{}
+	tByName := map[string]testscript.T{}
+	endMarks := map[string]bool{}
 	var files []string
 	for i := range bt.Scripts {
 		s := &bt.Scripts[i]
@@ -484,8 +531,58 @@ func runBatchChild(job *Job, deadline time.Time) *ChildResult {
 		if s.DelayMs > 0 {
 			time.Sleep(time.Duration(s.DelayMs) * time.Millisecond)
 		}
+		t := env.T()
+		col.mu.Lock()
+		tByName[name] = t
+		col.mu.Unlock()
+		// what a hermetic Setup does to the variable list: nothing, drop it, or filter it by an allow-list
+		switch names, isKeep := keepNames(s.SetupVars); {
+		case s.SetupVars == "nil":
+			env.Vars = nil
+		case s.SetupVars == "empty":
+			env.Vars = []string{}
+		case isKeep:
+			var keep []string
+			for _, kv := range env.Vars {
+				k, _, _ := strings.Cut(kv, "=")
+				for _, n := range names {
+					if n == k {
+						keep = append(keep, kv)
+						break
+					}
+				}
+			}
+			env.Vars = keep
+		}
 		for _, kv := range s.Adds {
 			env.Vars = append(env.Vars, kv.K+"="+strings.Replace(kv.V, "$WORK", env.WorkDir, 1))
+		}
+		// ordering of the ends of scripts (see Script.EndMark): registered first, so they run last
+		if s.EndMark {
+			env.Defer(func() {
+				col.mu.Lock()
+				endMarks[name] = true
+				col.mu.Unlock()
+			})
+		}
+		if len(s.EndAfter) > 0 {
+			env.Defer(func() {
+				for k := 0; k < 3000; k++ {
+					col.mu.Lock()
+					all := true
+					for _, n := range s.EndAfter {
+						// (a script that is not part of this batch - the solitary run - is not waited for)
+						if byName[n] != nil && !endMarks[n] {
+							all = false
+						}
+					}
+					col.mu.Unlock()
+					if all {
+						return
+					}
+					time.Sleep(time.Millisecond)
+				}
+			})
 		}
 		var regs []int
 		for _, d := range s.Defers {
@@ -496,9 +593,7 @@ func runBatchChild(job *Job, deadline time.Time) *ChildResult {
 				o := col.get(name)
 				o.Runs = append(o.Runs, d.ID)
 				col.mu.Unlock()
-				if d.Bad {
-					panic(fmt.Sprintf("deferred function %d panics", d.ID))
-				}
+				endDeferred(deferKind(d.ID, d.Bad), d.ID, t, nil)
 			})
 		}
 		tree := treeStringIn(env.WorkDir, env.WorkDir, job.Dir)
@@ -563,15 +658,32 @@ func runBatchChild(job *Job, deadline time.Time) *ChildResult {
 			o := col.get(name)
 			o.Regs = append(o.Regs, id)
 			col.mu.Unlock()
+			col.mu.Lock()
+			t := tByName[name]
+			col.mu.Unlock()
 			ts.Defer(func() {
 				col.mu.Lock()
 				o := col.get(name)
 				o.Runs = append(o.Runs, id)
 				col.mu.Unlock()
-				if bad {
-					panic(fmt.Sprintf("deferred function %d panics", id))
-				}
+				endDeferred(deferKind(id, bad), id, t, ts)
 			})
+		},
+		// custom commands that end the run through the T of the subtest instead of ts.Fatalf
+		"tskip": func(ts *testscript.TestScript, neg bool, args []string) {
+			col.mu.Lock()
+			t := tByName[ts.Name()]
+			col.mu.Unlock()
+			t.Skip("custom command skips the test through Env.T()")
+		},
+		"tfailnow": func(ts *testscript.TestScript, neg bool, args []string) {
+			col.mu.Lock()
+			t := tByName[ts.Name()]
+			col.mu.Unlock()
+			if len(args) > 0 {
+				t.Fatal("custom command fails the test through Env.T()")
+			}
+			t.FailNow()
 		},
 		"bgrecord": func(ts *testscript.TestScript, neg bool, args []string) {
 			h, _ := strconv.Atoi(args[0])
@@ -584,7 +696,8 @@ func runBatchChild(job *Job, deadline time.Time) *ChildResult {
 				c := cmds[len(cmds)-1]
 				if c.Process != nil {
 					o := col.get(name)
-					o.Bg = append(o.Bg, BgObs{H: h, Pid: c.Process.Pid})
+					start, _ := procStart(c.Process.Pid)
+					o.Bg = append(o.Bg, BgObs{H: h, Pid: c.Process.Pid, Start: start})
 					if h >= 50 && h < 100 {
 						// this kind announces when its signal handler is in place
 						ready := filepath.Join(obsDir, fmt.Sprintf("ready-%d", c.Process.Pid))
@@ -639,6 +752,22 @@ func runBatchChild(job *Job, deadline time.Time) *ChildResult {
 		par = 8
 	}
 	root := &rootT{release: make(chan struct{}), sem: make(chan struct{}, par), verbose: bt.Verbose, gs: gs, index: index, seq: bt.SeqT}
+	// "When a run ends ... no process it started is still alive": looked at the moment the subtest function
+	// returns.  run() has then waited for every background command (cmd.Wait has returned), so not even
+	// a zombie of that pid and start time can be left.
+	root.atEnd = func(name string) {
+		col.mu.Lock()
+		defer col.mu.Unlock()
+		o := col.get(name)
+		for _, b := range o.Bg {
+			if b.Start == "" {
+				continue
+			}
+			if start, state := procStart(b.Pid); start == b.Start && state != 'Z' && state != 'X' {
+				o.AliveAtEnd = append(o.AliveAtEnd, fmt.Sprintf("b%d:pid%d", b.H, b.Pid))
+			}
+		}
+	}
 	t0 := time.Now()
 	res.T0 = t0.UnixNano()
 	ran := make(chan struct{})
